@@ -314,3 +314,57 @@ fn cond_int_case(kind: u8) {
     kani::cover!(!got && with_attrs);
     core::mem::forget((cond, attrs, keep, source, ksrc));
 }
+
+//@ id=C14 tier=off cap=3600 mem=40
+//@ fn: policy::Condition::evalute (AsPath set arm: ANY / ALL / INVERT over the single-value patterns), SingleAsPathMatch::is_match
+//@ bound: as-path set with one pattern Include(x) (symbolic x), match option symbolic; route with a one-AS AS_PATH or with NO AS_PATH attribute; unwind 10
+//@ desc: the condition holds iff (some pattern matches) for ANY and iff (no pattern matches) for INVERT / ALL, and a route without AS_PATH matches no pattern (so INVERT holds for it)
+#[kani::proof]
+#[kani::unwind(10)]
+fn c14_cond_aspath_set() {
+    let with_path: bool = kani::any();
+    let (asp, asns, _types) = skeleton(&[1]);
+    let attrs: Arc<Vec<Attribute>> = Arc::new(if with_path {
+        fixed_vec([asp], 1)
+    } else {
+        core::mem::forget(asp);
+        Vec::new()
+    });
+    let keep = attrs.clone();
+    let x: u32 = kani::any();
+    let y: u32 = kani::any();
+    let set = Arc::new(AsPathSet {
+        single_sets: fixed_vec([SingleAsPathMatch::Include(x), SingleAsPathMatch::LeftMost(y)], 1),
+        sets: Vec::new(),
+    });
+    let kset = set.clone();
+    let o: u8 = kani::any();
+    kani::assume(o < 3);
+    let opt = match o {
+        0 => MatchOption::Any,
+        1 => MatchOption::All,
+        _ => MatchOption::Invert,
+    };
+    let cond = Condition::AsPath(String::new(), opt, set);
+    let source = Arc::new(Source::new(
+        IpAddr::V4(Ipv4Addr::new(10, 0, 0, 1)),
+        IpAddr::V4(Ipv4Addr::new(10, 0, 0, 2)),
+        1,
+        2,
+        Ipv4Addr::new(1, 1, 1, 1),
+        crate::PeerRole::Ebgp,
+    ));
+    let ksrc = source.clone();
+    let net = packet::Nlri::V4(packet::bgp::Ipv4Net {
+        addr: Ipv4Addr::new(10, 1, 0, 0),
+        mask: 16,
+    });
+    let got = cond.evalute(&source, &net, &attrs, None, IpAddr::V4(Ipv4Addr::new(10, 0, 0, 1)), None);
+    let _ = y;
+    let found = with_path && asns[0][0] == x;
+    let want = if o == 0 { found } else { !found };
+    assert!(got == want);
+    kani::cover!(got && o == 2 && !with_path);
+    kani::cover!(got && o == 0);
+    core::mem::forget((cond, attrs, keep, kset, source, ksrc));
+}
